@@ -249,7 +249,7 @@ def run(ctx):
             if op == "=" and re.match(r"^std::max\(\*limit_min_bytes_opt, std::min\(\*limit_max_bytes_opt, state\.limit\)\)$", rhs):
                 clamp = w
                 ev[w] = [("set", "clamped"), ("clear", "aligned")]
-            elif op == "&=" and rhs in ("~4095", "-4096", "~0xFFF", "18446744073709547520") or (op == "&=" and "4095" in rhs):
+            elif op == "&=" and (rhs in ("~4095", "-4096", "~0xFFF", "18446744073709547520") or "4095" in rhs or const_int(a, write_rhs(a, w)) == -4096):
                 align = w
                 ev[w] = [("set", "aligned")]
             else:
@@ -303,7 +303,7 @@ def run(ctx):
     ctx.check(v is not None and re.match(r"^\(\(\*current_opt - \*limit_min_bytes_opt\) \* this->max_probe_\)$", tib.text(init)) is not None, "reclaim:size-formula", "value-shape", tib.loc(),
               "reclaim_size = (usage - floor) * max_probe", "reclaim_size = " + (tib.text(init) if v else "?"))
     masks = [w for w in local_writes(tib, "reclaim_size")]
-    ev = {w: [("set", "masked")] for w in masks if tib.nodes[w].get("op") == "&=" and "4095" in tib.text(write_rhs(tib, w))}
+    ev = {w: [("set", "masked")] for w in masks if tib.nodes[w].get("op") == "&=" and ("4095" in tib.text(write_rhs(tib, w)) or const_int(tib, write_rhs(tib, w)) == -4096)}
     fm = Flow(P, tib, events=ev, cg=cg)
     for i in rc:
         ctx.check(fm.must(i, "masked") and len(masks) == 1, "reclaim:size-page-masked", "order", tib.loc(i), "reclaim size is masked to whole pages", "reclaim size is not page masked (or modified otherwise)")
